@@ -93,7 +93,8 @@ function compileBatch(jobs, threads) {
   const outP = path.join(WORK, `batch.${tag}.out.json`)
   fs.writeFileSync(inP, JSON.stringify({ jobs, threads: threads || 1 }))
   try {
-    cp.execFileSync(GEV, ['batch', inP, outP], { stdio: ['ignore', 'ignore', 'inherit'], maxBuffer: 1 << 30 })
+    // (the time limit turns a non-terminating compiler into a machinery failure of this engine; C01 owns termination)
+    cp.execFileSync(GEV, ['batch', inP, outP], { stdio: ['ignore', 'ignore', 'inherit'], maxBuffer: 1 << 30, timeout: 900000 })
     return JSON.parse(fs.readFileSync(outP, 'utf8'))
   } finally {
     try { fs.unlinkSync(inP) } catch (e) { /* ignore */ }
